@@ -3,6 +3,7 @@
   script-lit  redis.call with literal arguments          script-keys  redis.call with KEYS[1] / ARGV[i]
   script-pcall redis.pcall with literal arguments        multi        MULTI / form / EXEC
   script-sha  SCRIPT LOAD, then EVALSHA with KEYS[1] / ARGV[i]
+  multi-script MULTI / EVAL of the form / EXEC
 Every segment: fresh dataset (forms.PRE, in database `db`; the same key names with other values in database `odb`),
 the form through the path, a dump of both databases.  The segments of a trace are validated independently by TLC."""
 import forms
@@ -67,6 +68,10 @@ def run_forms(s, path, db=0, odb=None, subset=None, prefix='form', reset=True):
         elif path == 'multi':
             s.cmd(c, [b'MULTI'])
             s.cmd(c, a)
+            s.cmd(c, [b'EXEC'])
+        elif path == 'multi-script':
+            s.cmd(c, [b'MULTI'])
+            eval_form(s, c, a, 'keys', False)
             s.cmd(c, [b'EXEC'])
         elif path.startswith('script-'):
             eval_form(s, c, a, 'keys' if path in ('script-keys', 'script-sha') else 'lit', path == 'script-pcall', path == 'script-sha')
